@@ -1,7 +1,6 @@
 /-
   Handlers/HC16.lean — driver request `c16`: machine description + options + a model's graph history
-  [+ region of interest] ↦ the abstract diagram of `Model/Diagram.lean` (`D <nats>`), or `err` when
-  the model raises (the KeyError of the ROI filter).
+  [+ region of interest] ↦ the abstract diagram of `Model/Diagram.lean` (`D <nats>`).
 -/
 import Handlers.Basic
 import Model.Diagram
@@ -46,8 +45,7 @@ def mstate : Nat → P MState
 
 def opts : P Opts := do
   let nested ← bool; let showConds ← bool; let showAttrs ← bool
-  let fixPrev ← bool; let fixRoi ← bool; let fixFlatFinal ← bool
-  pure { nested, showConds, showAttrs, fixPrev, fixRoi, fixFlatFinal }
+  pure { nested, showConds, showAttrs }
 
 def step : P Step := do
   let k ← nat
@@ -92,10 +90,8 @@ def request : P String := do
   let cur0 ← list path
   let h ← list step
   let roi ← opt (list path)
-  let st := stylesAfter o cur0 h
-  match diagram o { states, trans, initial } st roi with
-  | none => pure "err"
-  | some d => pure s!"D {joinNats (encDiagram d)}"
+  let st := stylesAfter cur0 h
+  pure s!"D {joinNats (encDiagram (diagram o { states, trans, initial } st roi))}"
 
 end C16
 
